@@ -109,7 +109,7 @@ def ev_construct(cls: str, cols, box: str, table, caller_cols: dict, p_i: float,
     e = {"ev": "Construct", "cls": cls, "cols": sorted(cols), "box": box,
          "pi_below": bool(p_i < p[0]), "pi_above": bool(p_i > p[-1]), "outcome": outcome, **own,
          "own_table": bool(outcome != "ok" or obj.pvt_props is not table),
-         "n_noninc": 0, "n_nan": 0, "ms": [], "mi_at": 0, "mi_self": 0, "node": False, "mi_one": 0, "mi_low": 0,
+         "n_noninc": 0, "n_nan": 0, "ms": [], "mi_at": 0, "mi_self": 0, "mi_kept": 0, "node": False, "mi_one": 0, "mi_low": 0,
          "mi_high": 0, "alpha_nodes": 0, "alpha_bad": 0}
     if outcome != "ok":
         return e
@@ -124,6 +124,15 @@ def ev_construct(cls: str, cols, box: str, table, caller_cols: dict, p_i: float,
         e.update({"n_noninc": _count_noninc(ms), "n_nan": int(np.sum(~np.isfinite(ms))), "ms": _qcolumn(ms),
                   "mi_at": quant.e15(mi, ref, scale), "mi_self": quant.e15(float(obj.m_scaled_func(p_i)), mi, scale),
                   "node": bool(np.any(p == p_i)), "alpha_bad": int(np.sum(~(np.isfinite(al) & (al > 0))))})
+        if isinstance(table, dict) and isinstance(table.get("pressure"), np.ndarray) and len(po) > 1:
+            # the caller goes on using its own pressure buffer (shifts it in place); evaluated last, after the columns were read
+            keep = np.array(table["pressure"], copy=True)
+            table["pressure"] += 0.37 * float(po[1] - po[0])
+            try:
+                e["mi_kept"] = quant.e15(float(obj.m_scaled_func(p_i)), mi, scale)
+            except Exception:  # noqa: BLE001  the lookup raising at its own initial pressure is the same failure
+                e["mi_kept"] = quant.CAP
+            table["pressure"][:] = keep
         if "alpha" in cols and cls != "simple":
             m = np.asarray(caller_cols["pseudopressure"], dtype=float)
             i = int(np.clip(np.searchsorted(p, p_i, side="right") - 1, 0, len(p) - 2))
